@@ -220,7 +220,13 @@ def main(argv=None):
         for v in new:
             per[v['mechanism']] = acc._viol_per_mech.get(v['mechanism'], 1)
         print('violations by mechanism: %s' % json.dumps(per, sort_keys=True))
-    for n, v in enumerate(new[:10]):
+    # one witness per mechanism first, then more of the same
+    firsts, rest, seen_m = [], [], set()
+    for v in new:
+        (rest if v['mechanism'] in seen_m else firsts).append(v)
+        seen_m.add(v['mechanism'])
+    new = firsts + rest
+    for n, v in enumerate(new[:12]):
         path = write_replay(pid, n, v, args.tier, seed)
         replays.append(path)
         print('  witness: [%s] %s' % (v['mechanism'], v['desc'][:400]))
